@@ -350,7 +350,9 @@ class KindAnalysis(object):
                 return r
             return fs(ANY)
         if isinstance(e, ast.IfExp):
-            return self.eval(func, e.body, state, facts) | self.eval(func, e.orelse, state, facts)
+            # each arm is evaluated in the state refined by the outcome of the test (`x if isinstance(x, Failure) else Failure(x)`)
+            return self.eval(func, e.body, self._refine(func, dict(state), e.test, True), facts) | self.eval(
+                func, e.orelse, self._refine(func, dict(state), e.test, False), facts)
         if isinstance(e, (ast.Yield,)):
             return fs(ANY)
         return fs(ANY)
